@@ -397,6 +397,10 @@ class NumberMagic:
         return "1.7alpha"
 
 
+# MediaWiki limits the result of padleft/padright to 500 characters
+MAX_PAD_WIDTH = 500
+
+
 class StringMagic:
     @single_arg
     def LC(self, input_string):
@@ -422,6 +426,7 @@ class StringMagic:
             return original_string
 
         fill_str = args[2] or "0"
+        width = min(width, MAX_PAD_WIDTH)
         return (
             "".join(
                 [
@@ -440,6 +445,7 @@ class StringMagic:
             return original_string
 
         fillstr = args[2] or "0"
+        width = min(width, MAX_PAD_WIDTH)
         return original_string + "".join(
             [fillstr[i % len(fillstr)] for i in range(width - len(original_string))]
         )
